@@ -68,9 +68,9 @@ func (Beale) Hess(dst *mat.SymDense, x []float64) {
 	t1 := 1 - x[1]
 	t2 := 1 - x[1]*x[1]
 	t3 := 1 - x[1]*x[1]*x[1]
-	f1 := 1.5 - x[1]*t1
-	f2 := 2.25 - x[1]*t2
-	f3 := 2.625 - x[1]*t3
+	f1 := 1.5 - x[0]*t1
+	f2 := 2.25 - x[0]*t2
+	f3 := 2.625 - x[0]*t3
 
 	h00 := 2 * (t1*t1 + t2*t2 + t3*t3)
 	h01 := 2 * (f1 + x[1]*(2*f2+3*x[1]*f3) - x[0]*(t1+x[1]*(2*t2+3*x[1]*t3)))
